@@ -68,6 +68,7 @@ def run_shard(shard, ctx):
 
 # ------------------------------------------------------------------------------------------------------------------ values
 def _values(col, ctx, shard):
+    from checks.c02 import FRAMES
     import numpy as np
     import scared
     from checks import asys
@@ -86,21 +87,25 @@ def _values(col, ctx, shard):
         k += 1
         tdts = ['uint8', 'int16', 'float32', 'float64']
         tdt = tdts[k % 4]; prec = ('float32', 'float64')[(k // 4) % 2]
-        variants = [(tdt, prec, None, [])]
-        if (n1 + n2 + bs) % 3 == 0: variants.append((tdts[(k + 1) % 4], ('float32', 'float64')[k % 2], slice(1, 4), ['affine']))
-        if (n1 + n2 + bs) % 5 == 0: variants.append(('uint8', 'float64', [0, 2, 2, 3], ['drop_first', 'cube_minus']))
-        for tdt, prec, frame, chain in variants:
+        variants = [(tdt, prec, None, [], 4)]
+        if (n1 + n2 + bs) % 3 == 0: variants.append((tdts[(k + 1) % 4], ('float32', 'float64')[k % 2], slice(1, 4), ['affine'], 4))
+        if (n1 + n2 + bs) % 5 == 0: variants.append(('uint8', 'float64', [0, 2, 2, 3], ['drop_first', 'cube_minus'], 4))
+        # every way of writing a frame (the 17 spellings of C02: slices with open / negative / reversed bounds, ranges, lists, arrays, Ellipsis) reaches both accumulators
+        fname, fr = FRAMES[(n1 * 56 + n2 * 8 + bs) % len(FRAMES)]
+        if isinstance(fr, str): fr = np.array([int(x) for x in fr[3:].split(',')])
+        if fr is not None: variants.append((tdts[(k + 2) % 4], prec, fr, [], 6))
+        for tdt, prec, frame, chain, width in variants:
             rng = rng_for(seed, 'c09v', n1, n2)
             # values whose squares do not fit the integer storage type (a square computed before promotion would wrap)
             hi = 200 if tdt == 'uint8' else 300
-            A = rng.randint(0, hi, (n1 + 3, 4)); B = rng.randint(0, hi, (n2 + 2, 4))
+            A = rng.randint(0, hi, (n1 + 3, width)); B = rng.randint(0, hi, (n2 + 2, width))
             if np.dtype(tdt).kind == 'i': A = A - hi // 2; B = B - hi // 3
             A = A.astype(tdt); B = B.astype(tdt)
             case = {'n1': n1, 'n2': n2, 'batch_size': bs, 'tdtype': tdt, 'precision': prec, 'frame': repr(frame), 'chain': chain}
             label = 'n1=%d n2=%d bs=%d %s/%s frame=%r chain=%s' % (n1, n2, bs, tdt, prec, frame, chain)
             a = scared.TTestAnalysis(precision=prec)
             runs = [(A[:n1], B[:n2])] + ([(A[n1:], B[n2:])] if (n1 * n2 + bs) % 2 else [])
-            seenA = np.zeros((0, 4), tdt); seenB = np.zeros((0, 4), tdt)
+            seenA = np.zeros((0, width), tdt); seenB = np.zeros((0, width), tdt)
             for ri, (a_, b_) in enumerate(runs):
                 kw = {'preprocesses': [pp[c] for c in chain]}
                 if frame is not None: kw['frame'] = frame
